@@ -168,6 +168,15 @@ PTApplyOut ==
                                ELSE None],
                 shares |-> FALSE]
 
+\* exportToMatrixArray(): refuses a table with an unset pair (ValueError); otherwise a MatrixArray whose (i,j) and (j,i)
+\* pair functions both hold the value of the unordered pair (the upper-triangle entry for a non-symmetric table), carrying
+\* the table's type list, and sharing no memory with the table (this is how PRISM.__init__ builds PRISM.omega)
+PTExport ==
+    /\ UNCHANGED vars
+    /\ last' = IF ~Complete THEN [act |-> "PTExport", raises |-> TRUE]
+               ELSE [act |-> "PTExport", raises |-> FALSE, shares |-> FALSE,
+                     data |-> [s \in TSlots |-> val[Slot(Unord(RowOf(s), ColOf(s))[1], Unord(RowOf(s), ColOf(s))[2])]]]
+
 \* the user mutates, in place, the object read from table[i, j]
 MutateStored(i, j) ==
     LET s == Slot(i, j)
@@ -232,6 +241,7 @@ PTNext == \/ \E K1 \in SubSeqs, K2 \in SubSeqs, v \in Vals : PTSet(K1, K2, v)
           \/ \E v \in Vals : PTSetUnset(v)
           \/ PTApplyIn
           \/ PTApplyOut
+          \/ PTExport
           \/ \E i, j \in Idx : MutateStored(i, j)
           \/ MutateCaller
           \/ PTCheck
@@ -268,6 +278,11 @@ Isolation == /\ \A s, t \in TSlots : (id[s] # 0 /\ id[s] = id[t]) =>
 \* setUnset fills only pairs never assigned (action property)
 SetUnsetOnlyFillsUnset ==
     [][last'.act = "PTSetUnset" => \A k \in RefKeys : ref[k] # None => ref'[k] = ref[k]]_<<vars, last>>
+
+\* an exported MatrixArray is symmetric whatever the table's symmetric flag is
+ExportSymmetric ==
+    (last.act = "PTExport" /\ ~last.raises) =>
+        \A i, j \in Idx : last.data[Slot(i, j)] = last.data[Slot(j, i)]
 
 \* out-of-place apply leaves the original untouched
 ApplyOutLeavesOriginal ==
